@@ -19,14 +19,14 @@ func runInd(c *Case, o PipeOpts) (*PipeResult[F], *IndInstance) {
 	if e == nil {
 		panic("unknown indicator " + c.Entity)
 	}
-	ii := makeInd(e, c.Cfg, c.Scale)
+	ii := c.ind()
 	inputs := floatInputs(e.Sig, c.Lens, c.Shape, c.DataSeed)
 	return runPipe(o, inputs, ii.Build()), ii
 }
 
 // runStrat executes a strategy case (one snapshot input, one action output).
 func runStrat(c *Case, o PipeOpts) *PipeResult[strategy.Action] {
-	s := buildStrategy(c.spec())
+	s := c.strat()
 	snaps := genSnapshots(c.Lens[0], c.Shape, c.DataSeed, epoch)
 	return runPipe(o, [][]*asset.Snapshot{snaps}, func(in []<-chan *asset.Snapshot) []<-chan strategy.Action {
 		return []<-chan strategy.Action{s.Compute(in[0])}
@@ -92,7 +92,7 @@ func genIndCase(rng *rand.Rand, tier string, equalOnly bool) *Case {
 	e := Indicators[rng.Intn(len(Indicators))]
 	c := &Case{Family: "ind", Entity: e.Name}
 	c.Cfg, c.Scale = genIndConfig(rng, e, true)
-	ii := makeInd(e, c.Cfg, c.Scale)
+	ii := c.ind()
 	maxLong := 120
 	if tier == "thorough" {
 		maxLong = 320
@@ -117,6 +117,9 @@ func genIndCase(rng *rand.Rand, tier string, equalOnly bool) *Case {
 		}
 	}
 	c.Policy = genPolicy(rng)
+	if rng.Intn(5) == 0 {
+		c.Variant = 1 + rng.Intn(2) // smoothing constants, percentages, multipliers off their defaults
+	}
 	return c
 }
 
@@ -143,6 +146,9 @@ func genStratCase(rng *rand.Rand, tier string) *Case {
 		}
 	}
 	c.Policy = genPolicy(rng)
+	if rng.Intn(5) == 0 {
+		c.Variant = 1 + rng.Intn(2) // thresholds, percentages, multipliers off their defaults
+	}
 	return c
 }
 
